@@ -1,6 +1,8 @@
 import UtilModel.Routine.Proofs
 import UtilModel.Routine.ProofsC05
 import UtilModel.Routine.ProofsC14
+import UtilModel.Routine.ProofsK4
+import UtilModel.Routine.ProofsObs
 import UtilModel.Routine.Monitors
 /-!
 # routine: property theorems (C04, C05, C14)
@@ -71,6 +73,16 @@ theorem one_running_partial (es : List Ev) (s : St) (hr : model.run model.init e
   have hg := good_run model.init s es good_init hsafe hr
   exact Chain.one_running (proj s) hg.chain i j (pI x) (pI y) (proj_get s i x hx) (proj_get s j y hy)
     (by simp [pI, pst, rx]) (by simp [pI, pst, ry])
+
+/-- **C04, observable form of the first clause, outside D16** (`C04a_obs_partial`): the overlap monitor — "no
+entry of the managed function while another instance has entered and not returned" — accepts the observable
+trace of every run of the model that avoids the D16 critical section. The same monitor clause is part of `monC04`
+and `monC04x`, which the driver evaluates on histories recorded from the real code. -/
+theorem C04a_obs_partial (es : List Ev) (s : St) (hr : model.run model.init es = some s)
+    (hsafe : SafeRun model.init es) : monC04a.accepts (es.filterMap model.obs) = true := by
+  obtain ⟨ms, h, _⟩ := link_run model.init s {} es good_init linkA_init hsafe hr
+  have : monC04a.run monC04a.init (es.filterMap model.obs) = some ms := h
+  simp [ObsMonitor.accepts, this]
 
 /-- the chain invariant itself (eight clauses of `Core/Chain`) holds in every state of a safe run -/
 theorem chain_inv_partial (es : List Ev) (s : St) (hr : model.run model.init es = some s)
@@ -171,6 +183,19 @@ theorem survivor_unique (es : List Ev) (s : St) (hr : model.run model.init es = 
   have a := (quiescent_survivor es s hr n x hx h1).1
   have b := (quiescent_survivor es s hr m y hy h2).1
   rw [a] at b; exact Option.some.inj b
+
+/-- **C05, state variant** (`survivor_state`): for a StateRoutineContainer, an instance with a live context was
+built from the most recently stored state and state function (its record is the closure over them), and both are
+non-empty. -/
+theorem survivor_state (es : List Ev) (s : St) (hr : model.run model.init es = some s)
+    (cf : Cfg) (hcf : s.cfg = some cf) (hst : cf.state = true)
+    (n : Nat) (x : Inst) (hx : s.insts[n]? = some x) (hlive : s.isCancelled x = false) :
+    ∃ y, s.recs[x.rid]? = some y ∧ s.routine = some x.rid ∧ y.arg = s.sval ∧ y.fn = s.sfn ∧
+      s.sval ≠ 0 ∧ s.sfn ≠ 0 := by
+  obtain ⟨_, _, _, r, y, h1, h2, _, h4⟩ := quiescent_survivor es s hr n x hx hlive
+  have hk := (k4_run model.init s es k4_init hr).lnk cf hcf hst r y h1 h2
+  subst h4
+  exact ⟨y, h2, h1, hk.2.1, hk.1, hk.2.2.1, hk.2.2.2⟩
 
 /-! ## C14 — exit status, restart rules, backoff -/
 
